@@ -313,10 +313,14 @@ class LimitsFamily(SubsFamily):
                 dict(op='heavy_grow', to=limit - rng.choice([2, 3, 40]), keep=True),
                 dict(op='settle', keep=True), dict(op='heavy_sub'), dict(op='settle'),
                 dict(op='heavy_check')]
+        opq = rng.random() < 0.5        # the operator looks the script up now and then (`query`, its own limit)
         for to in (limit - 1, limit, limit + 1, limit + rng.choice([2, 30])):
             if rng.random() < 0.85:
                 plan.append(dict(op='heavy_grow', to=to))
                 plan.append(dict(op='settle'))
+                if opq and rng.random() < 0.7:
+                    plan.append(dict(op='admin_query', script=X.hex(), limit=rng.choice([10, 1000, 1000, 5000])))
+                    plan.append(dict(op='wait', dt=rng.choice([2.0, 10.0])))
                 plan.append(dict(op='heavy_check'))
         return dict(family='limits', knobs=k, plan=plan)
 
